@@ -150,7 +150,7 @@ fn history<const D: usize>(hid: usize, rng: &mut Rng, out: &mut Out, steps: usiz
 
 pub fn run(cfg: &Cfg, rng: &mut Rng, out: &mut Out) {
     let thorough = cfg.tier == "thorough";
-    let nh = if thorough { 30 } else { 4 };
+    let nh = if thorough { 30 } else { 10 };
     let (steps, budget) = if thorough { (14, 8) } else { (8, 4) };
     for h in 0..nh {
         history::<2>(h, rng, out, steps, budget);
